@@ -400,7 +400,9 @@ func findSites(obj *types.Func, p *load.Program) ([]site, string) {
 					}
 				case *ast.IfStmt:
 					s.ifStmt = st
-					if st.Init != nil && containsNode(st.Init, call) {
+					if propagatesError(st, call) {
+						s.shape = 7
+					} else if st.Init != nil && containsNode(st.Init, call) {
 						switch in := st.Init.(type) {
 						case *ast.ExprStmt:
 							if in.X == ast.Expr(call) {
@@ -453,6 +455,36 @@ func findSites(obj *types.Func, p *load.Program) ([]site, string) {
 		}
 	}
 	return out, ""
+}
+
+// propagatesError recognises `if x := f(...); x != nil { return x }` (no else).
+func propagatesError(st *ast.IfStmt, call *ast.CallExpr) bool {
+	as, ok := st.Init.(*ast.AssignStmt)
+	if !ok || as.Tok != token.DEFINE || len(as.Lhs) != 1 || len(as.Rhs) != 1 || as.Rhs[0] != ast.Expr(call) || st.Else != nil {
+		return false
+	}
+	x, ok := as.Lhs[0].(*ast.Ident)
+	if !ok {
+		return false
+	}
+	be, ok := st.Cond.(*ast.BinaryExpr)
+	if !ok || be.Op != token.NEQ {
+		return false
+	}
+	l, okL := be.X.(*ast.Ident)
+	r, okR := be.Y.(*ast.Ident)
+	if !okL || !okR || l.Name != x.Name || r.Name != "nil" {
+		return false
+	}
+	if len(st.Body.List) != 1 {
+		return false
+	}
+	ret, ok := st.Body.List[0].(*ast.ReturnStmt)
+	if !ok || len(ret.Results) != 1 {
+		return false
+	}
+	rv, ok := ret.Results[0].(*ast.Ident)
+	return ok && rv.Name == x.Name
 }
 
 func inStmtList(parent ast.Node, st ast.Stmt) bool {
@@ -784,7 +816,11 @@ func buildReplacement(fset *token.FileSet, src func(string) []byte, fd *ast.Func
 		}
 	}
 	// body with returns rewritten
-	body, hasReturn, why := rewriteReturns(fset, src, fd, rnames, "inlL"+tag)
+	propagate := s.shape == 7
+	if propagate && sig.Results().Len() != 1 {
+		return "", "error-propagating call of a function without exactly one result"
+	}
+	body, hasReturn, why := rewriteReturns(fset, src, fd, rnames, "inlL"+tag, propagate)
 	if why != "" {
 		return "", why
 	}
@@ -804,7 +840,7 @@ func buildReplacement(fset *token.FileSet, src func(string) []byte, fd *ast.Func
 	// the statement itself
 	results := strings.Join(rnames, ", ")
 	switch s.shape {
-	case 1:
+	case 1, 7:
 		// nothing more
 	case 2:
 		st := s.stmt.(*ast.AssignStmt)
@@ -911,7 +947,7 @@ func typeNameRisk(t types.Type, pk *packages.Package, scope *types.Scope, pos to
 
 // rewriteReturns renders the callee's body statements with every return of the callee itself
 // replaced by an assignment to the result temps and a labelled break.
-func rewriteReturns(fset *token.FileSet, src func(string) []byte, fd *ast.FuncDecl, rnames []string, label string) (string, bool, string) {
+func rewriteReturns(fset *token.FileSet, src func(string) []byte, fd *ast.FuncDecl, rnames []string, label string, propagate bool) (string, bool, string) {
 	type rep struct {
 		start, end int
 		text       string
@@ -949,7 +985,16 @@ func rewriteReturns(fset *token.FileSet, src func(string) []byte, fd *ast.FuncDe
 				for _, r := range x.Results {
 					vals = append(vals, nodeText(fset, src, r))
 				}
-				t = "{ " + strings.Join(rnames, ", ") + " = " + strings.Join(vals, ", ") + "; break " + label + " }"
+				if propagate && len(vals) == 1 {
+					// the caller returns a non-nil result at once: keep that as a return
+					if vals[0] == "nil" {
+						t = "{ break " + label + " }"
+					} else {
+						t = "{ " + rnames[0] + " = " + vals[0] + "; if " + rnames[0] + " != nil { return " + rnames[0] + " }; break " + label + " }"
+					}
+				} else {
+					t = "{ " + strings.Join(rnames, ", ") + " = " + strings.Join(vals, ", ") + "; break " + label + " }"
+				}
 			}
 			reps = append(reps, rep{fset.Position(x.Pos()).Offset - base, fset.Position(x.End()).Offset - base, t})
 			return false
